@@ -14,7 +14,7 @@ ASAN  := $(COMMON) -O1 -fsanitize=address -fno-omit-frame-pointer -DSIM_BUILD_NA
 TLS   := $(COMMON) -O1 -DRLBOX_EMBEDDER_PROVIDES_TLS_STATIC_VARIABLES -DSIM_BUILD_NAME='"tls"'
 LIBS := -lpthread -ldl
 
-TARGETS := apptoken abi abi.wide mem mem.p64 mem.pvoid callback callback.tls invoke toctou toctou.asan bulk bulk.asan bulk.nogrant transition.hooks transition.inonly transition.outonly transition.timing transition.both threads threads.tsan threads.tls
+TARGETS := apptoken abi abi.wide mem mem.p64 mem.pvoid callback callback.tls invoke toctou toctou.asan bulk bulk.asan bulk.nogrant transition.hooks transition.inonly transition.outonly transition.timing transition.both transition.wide threads threads.tsan threads.tls
 
 all: $(addprefix $(B)/,$(TARGETS))
 
@@ -55,6 +55,9 @@ $(B)/transition.timing: worlds/transition.cpp $(B)/guestlib.o $(HDRS) $(SIMH) | 
 	$(CXX) $(PLAIN) -DTR_TIMING -DSIM_BUILD_NAME='"timing"' $< $(B)/guestlib.o -o $@ $(LIBS)
 $(B)/transition.both: worlds/transition.cpp $(B)/guestlib.o $(HDRS) $(SIMH) | $(B)
 	$(CXX) $(PLAIN) -DTR_HOOKS -DTR_TIMING -DSIM_BUILD_NAME='"both"' $< $(B)/guestlib.o -o $@ $(LIBS)
+
+$(B)/transition.wide: worlds/transition.cpp $(B)/guestlib.o $(HDRS) $(SIMH) | $(B)
+	$(CXX) $(PLAIN) -DTR_HOOKS -DTR_TIMING -DSIM_WIDE_INT -DSIM_BUILD_NAME='"wide"' $< $(B)/guestlib.o -o $@ $(LIBS)
 
 $(B)/sched.o: sim/sched.cpp sim/sched.hpp | $(B)
 	$(CXX) -std=c++17 -O1 -g -c $< -o $@
